@@ -53,7 +53,7 @@ func c12Fq() *bf.Field {
 			return true
 		},
 		Copy: func(d, s bf.Elem) { *d.(*Fq) = *s.(*Fq) },
-		Raw: func(x bf.Elem) *big.Int { return bf.Pack(128, bf.FromLE(x.(*Fq)[0][:]), bf.FromLE(x.(*Fq)[1][:])) },
+		Raw:  func(x bf.Elem) *big.Int { return bf.Pack(128, bf.FromLE(x.(*Fq)[0][:]), bf.FromLE(x.(*Fq)[1][:])) },
 		Norm: func(v *big.Int) *big.Int {
 			c := bf.Unpack(v, 128, 2)
 			return bf.Pack(128, c[0].Mod(c[0], bf.P127), c[1].Mod(c[1], bf.P127))
@@ -157,7 +157,12 @@ func TestVerifC12_fourq(t *testing.T) {
 		{Name: "toBigInt-setBigInt", Do: func(z, x bf.Elem) { z.(*Fp).setBigInt(x.(*Fp).toBigInt()) }, Ref: bf.RefId, Canon: true},
 		{Name: "fromBytes", Do: func(z, x bf.Elem) {
 			if !z.(*Fp).fromBytes(x.(*Fp)[:]) {
-				panic("fromBytes refused a 127-bit string")
+				// refusing the non-canonical encoding of 0 (the string p) is allowed; refusing a canonical string is not
+				if bf.FromLE(x.(*Fp)[:]).Cmp(bf.P127) < 0 {
+					panic("fromBytes refused a canonical 127-bit string")
+				}
+				r.Count("fourq.Fp.fromBytes.refused-noncanonical-p", 1)
+				*z.(*Fp) = Fp{}
 			}
 		}, Ref: bf.RefId, Canon: true},
 	}
